@@ -45,6 +45,20 @@ def sig_of(ev, formula, side):
 
 
 def run(prop, tier, replay=None):
+    try:
+        return _run(prop, tier, replay)
+    except C.Infra as e:
+        # a driver process that died of a panic raised inside larking (a goroutine no request wrapper can guard: the
+        # forwarder's pump, say) is the server crashing - C09's business, not an infrastructure failure
+        why = C.larking_panic(str(e))
+        if why is None:
+            raise
+        rp = C.write_replay(prop, "ProcessCrash", dict(property=prop, formula="ProcessCrash", seed=C.seed(), what=why, report=str(e)[-6000:], replay_driver="none"))
+        print("VIOLATION property=%s replay=%s  (ProcessCrash: a driver process was killed by a panic inside larking: %s)" % (prop, rp, why))
+        return 1
+
+
+def _run(prop, tier, replay=None):
     t0 = time.time()
     seed = C.seed()
     rnd = random.Random(seed)
